@@ -96,7 +96,7 @@ class CondSpec(SeqSpec):
         cases = []
         for i in range(n):
             ops, nctx = self.gen_one(rng, targeted=("cancel-race" if i % 6 == 3 else (i % 6 == 0)))
-            cases.append({"component": "cond", "ops": ops, "cfg": {"nctx": nctx}})
+            cases.append({"component": "cond", "ops": ops, "cfg": {"nctx": nctx, "late_locker": rng.random() < 0.3}})
         return cases
 
     @staticmethod
